@@ -31,6 +31,14 @@ def run(ctx):
     for k in range(2 if quick else 10):
         fams.append(("short-circuit #%d" % k, lang.shortcircuit_program(rng)))
         fams.append(("scoping #%d" % k, lang.scoping_program(rng)))
+        fams.append(("operand-order #%d" % k, lang.operand_order_program(rng)))
+        fams.append(("guards #%d" % k, lang.guard_program(rng)))
+        fams.append(("short-circuit-in-functions #%d" % k, lang.shortcircuit_shadowed(rng)))
+        fams.append(("bytes #%d" % k, lang.bytes_program(rng)))
+        fams.append(("loop-sequences #%d" % k, lang.two_loops_program(rng)))
+        fams.append(("struct-order #%d" % k, lang.struct_order_program(rng)))
+        fams.append(("scoping-in-functions #%d" % k, lang.scoping_shadowed(rng)))
+        fams.append(("char-classes #%d" % k, lang.charclass_program(rng)))
     for k in range(20 if quick else 400):
         text, flags = gen_prog.gen(random.Random(ctx.seed * 15485863 + k), size=1.3)
         fams.append(("generated #%d" % k, text))
